@@ -19,6 +19,10 @@ DEFAULT_RULE = ('cases generated from one PRNG seeded by VERIF_SEED (structured 
 
 # streams: (name, quick count, thorough count)
 PROPS = {
+    'C01': {'streams': [], 'engines': ['engine_split', 'engine_sweep'],
+            'rule': 'exhaustive: every string over the 15 classes up to length 4 (quick) / 5 (thorough), with a fixed and a random representative code point per class; random strings up to length 300 biased to RI runs, Extend runs, ZWJ chains, Hangul; arbitrary (also invalid) rune values; all code points for the classifier. non-trivial = more than one code point'},
+    'C02': {'streams': [], 'engines': ['engine_sweep'],
+            'rule': 'exhaustive: all 1,114,112 code points plus 9 negative / out-of-range rune values; the 14 predicate bits of the compiled Go code against the Unicode 13.0.0 reference, against the regenerated Coq tables and against the extracted classifier. non-trivial = outside ASCII'},
     'C04': {'streams': [('chars', 1500, 60000), ('hist', 300, 10000)]},
     'C05': {'streams': [('hist', 1200, 60000)]},
     'C06': {'streams': [('wrap', 1200, 60000)]},
@@ -33,6 +37,90 @@ PROPS = {
     'C15': {'streams': [('deftable', 500, 25000)]},
     'C16': {'streams': [('table', 800, 40000)]},
 }
+
+def parse_tables(path, names=None):
+    """interval tables of a generated/committed Coq file: [(name, [(lo,hi),...])] in file order"""
+    out = []
+    for m in re.finditer(r'Definition (\w+) : list \(Z\*Z\) := \[(.*?)\]\.', open(path).read(), re.S):
+        ivs = [(int(a), int(b)) for a, b in re.findall(r'\((-?\d+),(-?\d+)\)', m.group(2))]
+        out.append((m.group(1), ivs))
+    return out
+
+def bits_array(tables):
+    arr = [0] * 0x110000
+    for i, (_, ivs) in enumerate(tables):
+        for lo, hi in ivs:
+            for c in range(max(lo, 0), min(hi, 0x10FFFF) + 1):
+                arr[c] |= (1 << i)
+    return arr
+
+CLASS_NAMES = ['Prepend', 'CR', 'LF', 'Control', 'Extend', 'RI', 'SpacingMark', 'L', 'V', 'T', 'LV', 'LVT', 'ZWJ', 'ExtPict']
+
+def engine_sweep(ctx, prop, r):
+    """all code points: implementation predicate bits vs the Unicode 13.0.0 reference (the property),
+    vs the regenerated Coq tables (translator validation), vs the model's classifier (extracted)"""
+    out = os.path.join(ctx.work, 'sweep.txt')
+    rc, o = ctx.sh('%s sweep -out %s' % (ctx.build.harness, out))
+    if rc != 0:
+        r.engine_errors.append('sweep failed: ' + o[-300:]); return
+    ref = bits_array(parse_tables(os.path.join(ctx.verif, 'coq', 'ref', 'Ucd13.v')))
+    genp = os.path.join(ctx.verif, 'coq', 'gen', 'Tables.v')
+    gen = bits_array(parse_tables(genp)) if ctx.build.translator_ok and os.path.exists(genp) else None
+    n = 0
+    trans_bad = 0
+    for l in open(out):
+        a, b = l.split()
+        cp, bits = int(a), int(b)
+        n += 1
+        want = ref[cp] if 0 <= cp <= 0x10FFFF else 0
+        if bits != want:
+            if len([f for f in r.failures if f.get('stream') == 'sweep']) < 10:
+                r.failures.append({'id': 'U+%04X' % cp if cp >= 0 else str(cp), 'stream': 'sweep', 'in_guard': True, 'clause': '-',
+                                   'case': 'codepoint %d' % cp,
+                                   'impl': 'predicates=' + ','.join(CLASS_NAMES[i] for i in range(14) if bits >> i & 1),
+                                   'expected': 'Unicode 13.0.0: ' + (','.join(CLASS_NAMES[i] for i in range(14) if want >> i & 1) or 'Other')})
+        if gen is not None and bits != (gen[cp] if 0 <= cp <= 0x10FFFF else 0):
+            trans_bad += 1
+    r.evaluations += n
+    r.distinct_nontrivial += n - 128
+    r.stream_counts['sweep(all code points + out-of-range values)'] = n
+    r.exhaustive = True
+    if trans_bad:
+        r.disagreements.append({'id': 'translator', 'stream': 'sweep', 'step': '-', 'model': '%d code points where the regenerated Coq tables differ from the compiled predicates' % trans_bad, 'case': '', 'impl': ''})
+    else:
+        r.agreements += n
+    rc, o = ctx.sh('%s sweepcls %s' % (ctx.driver, out))
+    m = re.search(r'SWEEPCLS (\d+) (\d+)', o)
+    if not m:
+        r.engine_errors.append('sweepcls failed: ' + o[-300:])
+    elif int(m.group(2)):
+        r.disagreements.append({'id': 'classifier', 'stream': 'sweepcls', 'step': '-', 'model': o[:600], 'case': '', 'impl': ''})
+    r.samples.append({'stream': 'sweep', 'case': 'U+0041 -> Other; U+0301 -> Extend; U+1F1E6 -> RI; -1 -> Other; 0x110000 -> Other'})
+
+def engine_split(ctx, prop, r):
+    """every class string up to a length (one fixed and one random representative per class) plus long random
+    strings: gem.Split, shouldBreakAfter and CharCount against the model the C01 theorems are about"""
+    out = os.path.join(ctx.work, 'split.txt')
+    ln, nr = (4, 3000) if ctx.tier == 'quick' else (5, 60000)
+    rc, o = ctx.sh('%s splitx -len %d -rand %d -seed %d -out %s' % (ctx.build.harness, ln, nr, ctx.seed, out))
+    if rc != 0:
+        r.engine_errors.append('splitx failed: ' + o[-300:]); return
+    rc, o = ctx.sh('%s split %s' % (ctx.driver, out))
+    m = re.search(r'SPLIT (\d+) (\d+)', o)
+    if not m:
+        r.engine_errors.append('driver split failed: ' + o[-300:]); return
+    n, bad = int(m.group(1)), int(m.group(2))
+    r.evaluations += n
+    r.agreements += n - bad
+    r.distinct_nontrivial += n - 16
+    r.stream_counts['class strings of length <= %d (exhaustive) + %d random' % (ln, nr)] = n
+    r.exhaustive = True
+    for l in o.splitlines():
+        if l.startswith('SPLITDIFF'):
+            f = l.split()
+            r.failures.append({'id': 'runes:' + f[1][:80], 'stream': 'splitx', 'in_guard': True, 'clause': '-',
+                               'case': 'runes ' + f[1], 'impl': ' '.join(f[2:])})
+    r.samples.append({'stream': 'splitx', 'case': open(out).readlines()[5000].strip()})
 
 class Ctx:
     def __init__(self, verif, repo, work, build, tier, seed, env, sh):
@@ -195,6 +283,7 @@ def explore(ctx, prop, cfg):
     # 3. special engines
     for eng in cfg.get('engines', []):
         try:
+            eng = globals()[eng] if isinstance(eng, str) else eng
             eng(ctx, prop, r)
         except Exception as e:  # an engine that cannot run is an error of the check, not a pass
             r.engine_errors.append('engine %s failed: %r' % (getattr(eng, '__name__', '?'), e))
